@@ -5,7 +5,7 @@ export CARGO_NET_OFFLINE=true CARGO_TARGET_DIR=$WT/target
 cd $WT || exit 9
 git checkout -q -- src 2>/dev/null
 git apply SEEDED/patch.diff || { echo "PATCH-DOES-NOT-APPLY"; exit 9; }
-cp SEEDED/seeded_demo.rs tests/seeded_demo.rs 2>/dev/null
+mkdir -p tests; cp SEEDED/seeded_demo.rs tests/seeded_demo.rs 2>/dev/null
 ok=1
 for f in "" "--no-default-features --features mmap" "--no-default-features --features tokio-runtime,mmap"; do
   cargo build --offline $f >/dev/null 2>&1 || { echo "BUILD-FAIL $f"; ok=0; }
